@@ -54,6 +54,7 @@ inductive V where
   | int (n : Int)
   | mref (p : Path)
   | core (n : Name)          -- a prelude entry (opaque core-library module)
+  | null                     -- what an unpacking assignment binds when the right-hand side is too short
   deriving DecidableEq, Repr, Inhabited
 
 inductive Err where
@@ -81,6 +82,35 @@ name of the imported item even when the statement binds an alias (finding F-C18-
 with the proposed repair the alias is used (`alias = true`) -/
 def Item.exportKey (alias : Bool) (i : Item) : Name := if alias then i.target else i.name
 
+/-- an entry of a map pattern: `key` (binds `key`), `key as n` (binds `n`; the key may also be written
+as a string), `key as _` (binds nothing) -/
+structure PEntry where
+  key : Name
+  target : Option Name
+  deriving DecidableEq, Repr, Inhabited
+
+/-- the assignment-target shapes the grammar allows (nested tuple/list patterns, `...` rests and nested
+map patterns are parse errors in assignments): an id, `_`, or a map pattern `{a, b as c, d as _}` -/
+inductive Target where
+  | id (k : Name)
+  | ignored
+  | mapPat (entries : List PEntry)
+  deriving DecidableEq, Repr, Inhabited
+
+/-- right-hand-side elements: an integer literal or the value of an id -/
+inductive Rhs where
+  | lit (n : Int)
+  | ref (k : Name)
+  deriving DecidableEq, Repr, Inhabited
+
+/-- the ids an assignment target binds -/
+def Target.bound : Target → List Name
+  | .id k => [k]
+  | .ignored => []
+  | .mapPat es => es.filterMap PEntry.target
+
+def boundIds (ts : List Target) : List Name := ts.flatMap Target.bound
+
 /-- straight-line statements (usable at a module's top level and inside `@main` / `@test` bodies) -/
 inductive Act where
   | print (mk : Nat)                           -- `print 'P<mk>'`
@@ -93,6 +123,8 @@ inductive Act where
   | fromAll (m : Name)                         -- `from m import *`
   | tryImport (m : Name) (mk : Nat)            -- `try` / `import 'm'` / `catch e` / `print 'C<mk>:<class>'`
   | fail (mk : Nat)                            -- `throw 'boom<mk>'`
+  /-- `[export] t1, t2, … = r1, r2, …` — (multi-)assignment with any target shapes -/
+  | assignPat (exp : Bool) (targets : List Target) (rhs : List Rhs)
   deriving DecidableEq, Repr, Inhabited
 
 /-- top-level statements: the above plus definitions of `@main` and `@test name` (their bodies print
@@ -273,6 +305,7 @@ def runImport (cfg : Cfg) (fs : FS) (rec : Runner) (fr : Frame) (name : Name) (s
 maps succeed, anything else is a type error (strings do not occur in the fragment) -/
 def importValue : V → Except Err V
   | .int _ => .error .type
+  | .null => .error .type
   | v => .ok v
 
 /-- the value an `import m` / `from m` root denotes: a local (compile-time decision of
@@ -317,6 +350,41 @@ def exportAll : List (Name × V) → St → St
   | [], st => st
   | (k, v) :: rest, st => exportAll rest (setData k v st)
 
+/-! ### (multi-)assignment with patterns (`compile_assign`, `compile_multi_assign`,
+`compile_assign_to_map_finish`): every bound id becomes a local and — when the assignment is exported
+or export_top_level_ids is active — an exports entry, target by target, entry by entry -/
+
+/-- the right-hand side is evaluated first, in the frame as it was -/
+def evalRhs (cfg : Cfg) (fr : Frame) (st : St) : List Rhs → Option (List V)
+  | [] => some []
+  | .lit n :: rest => (evalRhs cfg fr st rest).map (fun vs => V.int n :: vs)
+  | .ref k :: rest =>
+    match readId cfg fr st k with
+    | none => none
+    | some v => (evalRhs cfg fr st rest).map (fun vs => v :: vs)
+
+/-- a map pattern against a value: each key is accessed on the value in turn -/
+def bindEntries (b : Bool) (mv : V) : List PEntry → Frame → St → Option Err × Frame × St
+  | [], fr, st => (none, fr, st)
+  | e :: rest, fr, st =>
+    match access st.cache mv e.key with
+    | .error err => (some err, fr, st)
+    | .ok v =>
+      match e.target with
+      | some n => bindEntries b mv rest (bind n v fr) (exportIf b n v st)
+      | none => bindEntries b mv rest fr st
+
+/-- targets against the values of the right-hand side (`null` when there are too few) -/
+def bindTargets (b : Bool) : List Target → List V → Frame → St → Option Err × Frame × St
+  | [], _, fr, st => (none, fr, st)
+  | .id k :: ts, vs, fr, st =>
+    bindTargets b ts vs.tail (bind k (vs.headD .null) fr) (exportIf b k (vs.headD .null) st)
+  | .ignored :: ts, vs, fr, st => bindTargets b ts vs.tail fr st
+  | .mapPat es :: ts, vs, fr, st =>
+    match bindEntries b (vs.headD .null) es fr st with
+    | (some e, fr1, st1) => (some e, fr1, st1)
+    | (none, fr1, st1) => bindTargets b ts vs.tail fr1 st1
+
 def execAct (cfg : Cfg) (fs : FS) (rec : Runner) (a : Act) (fr : Frame) (st : St) :
     Option (Option Err × Frame × St) :=
   match a with
@@ -359,6 +427,10 @@ def execAct (cfg : Cfg) (fs : FS) (rec : Runner) (a : Act) (fr : Frame) (st : St
     | some (.error e, st1) => some (none, fr, emit (.caught mk e) st1)
     | some (.ok _, st1) => some (none, fr, st1)
   | .fail _ => some (some .thrown, fr, st)
+  | .assignPat exp targets rhs =>
+    match evalRhs cfg fr st rhs with
+    | none => some (some .idNotFound, fr, st)
+    | some vs => some (bindTargets (exp || fr.exportTop) targets vs fr st)
 
 def execActs (cfg : Cfg) (fs : FS) (rec : Runner) :
     List Act → Frame → St → Option (Option Err × Frame × St)
@@ -374,6 +446,7 @@ def execActs (cfg : Cfg) (fs : FS) (rec : Runner) :
 def Act.reads : Act → List Name
   | .show _ k => [k]
   | .exportId _ src => [src]
+  | .assignPat _ _ rhs => rhs.filterMap (fun r => match r with | .ref k => some k | _ => none)
   | _ => []
 
 def Act.binds : Act → List Name
@@ -382,6 +455,7 @@ def Act.binds : Act → List Name
   | .exportId k _ => [k]
   | .importMods items => items.map Item.target
   | .fromImport _ items => items.map Item.target
+  | .assignPat _ targets _ => boundIds targets
   | _ => []
 
 /-- ids the body reads before it binds them itself (the parser's `accessed_non_locals`) -/
